@@ -57,13 +57,14 @@ SUBSTRATE_MIX = {
     'svc_remove_interface': 4, 'node_remove_network_service': 3,
     'remove_node': 3, 'remove_component': 3, 'remove_facility': 1, 'remove_switch': 1,
     'set_property': 5, 'unset_property': 2, 'rename': 1, 'get_sliver': 2, 'roundtrip': 2, 'views_readonly': 1,
-    'validate': 1,
+    'validate': 1, 'add_child_interface': 4, 'remove_child_interface': 2, 'set_properties': 1,
 }
 PROP_BOOST = {
-    'C07': {},
+    'C07': {'add_child_interface': 8, 'remove_node': 5, 'remove_component': 5, 'failing': 6, 'connect_interface': 9},
     'C08': {'remove_node': 8, 'remove_component': 8, 'remove_network_service': 8, 'disconnect_interface': 8,
             'remove_child_interface': 5, 'unpeer': 5, 'remove_facility': 3, 'remove_switch': 3, 'prune': 3,
-            'add_child_interface': 8, 'peer': 5, 'connect_interface': 8},
+            'add_child_interface': 8, 'peer': 5, 'connect_interface': 8, 'add_link': 10, 'svc_add_interface': 10,
+            'remove_link': 4, 'svc_remove_interface': 6, 'node_remove_network_service': 5},
     'C09': {'failing': 14},
     'C02': {'set_property': 20, 'unset_property': 8, 'get_sliver': 10, 'set_properties': 4, 'prop_setter': 4,
             'update_labels': 3, 'update_capacities': 3},
@@ -88,7 +89,7 @@ class W2World(World):
         substrate = rng.random() < (0.2 if prop in ('C07', 'C08', 'C09', 'C02', 'C01') else 0.0)
         mix = dict(SUBSTRATE_MIX if substrate else BASE_MIX)
         for k, w in PROP_BOOST.get(prop, {}).items():
-            if not substrate or k in SUBSTRATE_MIX or k == 'failing':
+            if k == 'failing' or (substrate and k in SUBSTRATE_MIX) or (not substrate and BASE_MIX.get(k, 0) > 0):
                 mix[k] = w
         if prop != 'C09':
             mix.setdefault('failing', 2)
@@ -234,6 +235,9 @@ class W2World(World):
             w2_ops.check_removal(self, s, info, pre, pre_struct, post, post_struct)
         elif info.get('handles'):
             w2_ops.check_handles(self, s, info, post, post_struct)
+        if outcome == 'ok' and op in ('connect_interface', 'add_network_service', 'failing'):
+            from . import w2_validate
+            w2_validate.check_guardrail(self, s, info, post_struct)
         # ---- C07 after every call
         from . import w2_rules
         w2_rules.check_invariants(self, post, post_struct, op)
